@@ -95,8 +95,11 @@ fn main() {
             "RF" => {
                 let k: usize = f[1].parse().unwrap(); let k = if usks.is_empty() { usize::MAX } else { k % usks.len() };
                 if k >= usks.len() { writeln!(out, "NOIDX|{}", dump_msk(&msk)).unwrap(); return; }
+                let before = usks[k].serialize().unwrap().to_vec();
                 let r = cc.refresh_usk(&mut msk, &mut usks[k], f[2] == "1");
-                writeln!(out, "{}|{}|{}", if r.is_ok() { "OK" } else { "ERR" }, dump_msk(&msk), if r.is_ok() { dump_usk(&usks[k]) } else { quiet_usk(&usks[k]) }).unwrap();
+                // a refused refresh must leave the key byte for byte as it was (the dump does not show every field)
+                let obs = if r.is_ok() { "OK" } else if usks[k].serialize().unwrap().to_vec() != before { "ERRMOD" } else { "ERR" };
+                writeln!(out, "{}|{}|{}", obs, dump_msk(&msk), if r.is_ok() { dump_usk(&usks[k]) } else { quiet_usk(&usks[k]) }).unwrap();
             }
             "EN" => {
                 let j: usize = f[1].parse().unwrap(); let j = if mpks.is_empty() { usize::MAX } else { j % mpks.len() };
@@ -185,8 +188,10 @@ fn main() {
                 let (mut other, _) = cc.setup().unwrap();
                 other.access_structure = msk.access_structure.clone();
                 let _ = cc.update_msk(&mut other);
+                let before = usks[k].serialize().unwrap().to_vec();
                 let r = cc.refresh_usk(&mut other, &mut usks[k], f[2] == "1");
-                writeln!(out, "{}|{}|{}", if r.is_ok() { "OK" } else { "ERR" }, dump_msk(&msk), quiet_usk(&usks[k])).unwrap();
+                let obs = if r.is_ok() { "OK" } else if usks[k].serialize().unwrap().to_vec() != before { "ERRMOD" } else { "ERR" };
+                writeln!(out, "{}|{}|{}", obs, dump_msk(&msk), quiet_usk(&usks[k])).unwrap();
             }
             // backup / restore of the master key (an old serialized copy replaces the current one)
             "SNAP" => { snaps.push(msk.serialize().unwrap().to_vec()); writeln!(out, "OK|{}", dump_msk(&msk)).unwrap(); }
